@@ -333,9 +333,17 @@ func (cc *Session) Run() {
 		cc.executor.SetContextNamespace()
 		cc.clearKsConns(cc.executor.nsChangeIndexOld)
 
-		cmd := data[0]
-		data = data[1:]
-		rs := cc.execCommand(cmd, data)
+		var cmd byte
+		var rs Response
+		if len(data) == 0 {
+			// a zero-length packet carries no command byte: answer with an error
+			// instead of indexing it (MySQL answers such a packet with an error too)
+			rs = CreateErrorResponse(cc.executor.GetStatus(), mysql.ErrMalformPacket)
+		} else {
+			cmd = data[0]
+			data = data[1:]
+			rs = cc.execCommand(cmd, data)
+		}
 
 		// 如果其他地方已经回收过,不再回收
 		if !cc.c.hasRecycledReadPacket.CompareAndSwap(true, false) {
